@@ -237,6 +237,75 @@ def methods_crosscheck(refl):
     return "; ".join(out)
 
 
+def build_race_harness():
+    hd = os.path.join(ROOT, "harness")
+    rc, out = sh(["go", "build", "-race", "-tags", "verif", "-o", os.path.join(BUILD, "harness-race"), "."], cwd=hd, env=GOENV, timeout=900)
+    return rc == 0, out
+
+
+def race_stress(pid, rcfg, tier, seed, work, known):
+    """free-running parallel execution under the race detector (supporting evidence).
+    returns (stats, known_lines, violations)"""
+    ok, out = build_race_harness()
+    if not ok:
+        return {"error": out[-800:]}, [], [("race harness does not build", out[-800:])]
+    logdir = os.path.join(work, "race")
+    shutil.rmtree(logdir, ignore_errors=True)
+    os.makedirs(logdir)
+    rounds = rcfg["rounds"][0 if tier != "thorough" else 1]
+    env = dict(GOENV, GORACE="log_path=%s/r halt_on_error=0" % logdir)
+    rc, out = sh([os.path.join(BUILD, "harness-race"), "stress", "-mode", rcfg["mode"], "-rounds", str(rounds),
+                  "-workers", str(rcfg.get("workers", 8)), "-seed", str(seed)], env=env, timeout=3000)
+    res = {}
+    try:
+        res = json.loads(out.strip().splitlines()[-1])
+    except Exception:
+        res = {"problems": ["stress run produced no result: " + out[-400:]]}
+    reports = []
+    for f in sorted(glob.glob(os.path.join(logdir, "r.*"))):
+        txt = open(f, errors="replace").read()
+        for blk in txt.split("WARNING: DATA RACE")[1:]:
+            sides = re.split(r"\n(?=Previous (?:read|write) at )", blk.strip(), maxsplit=1)
+            info = []
+            for sd in sides[:2]:
+                sd = sd.split("\nGoroutine ")[0]
+                kind = "write" if re.match(r"\s*(?:Previous )?[Ww]rite", sd) else "read"
+                frames = re.findall(r"go-stackage\.([^\s(]*(?:\([^)]*\))?[^\s(]*)\(\)", sd)
+                info.append((kind, frames))
+            reports.append(info)
+    kf = next((k for k in known if k.get("kind") == "race"), None)
+    new, old = [], 0
+    for info in reports:
+        if len(info) < 2:
+            new.append(info)
+            continue
+        reads = [x for x in info if x[0] == "read"]
+        writes = [x for x in info if x[0] == "write"]
+        is_known = False
+        if kf and len(reads) == 1 and len(writes) == 1:
+            rf, wf = reads[0][1], writes[0][1]
+            if any(any(a in fr for a in kf["reader_frames"]) for fr in rf) and any(any(a in fr for a in kf["writer_frames"]) for fr in wf):
+                is_known = True
+        if is_known:
+            old += 1
+        else:
+            new.append(info)
+    stats = {"mode": rcfg["mode"], "rounds": rounds, "workers": rcfg.get("workers", 8), "race_reports": len(reports),
+             "matching_known_finding": old, "other_reports": len(new), "invariant_problems": res.get("problems") or []}
+    lines, viol = [], []
+    if kf and old:
+        lines.append("KNOWN-FINDING: property=%s %s (%s; %d race report(s) this run)" % (pid, kf["id"], kf["what"], old))
+    if new:
+        rp = write_replay(pid, "race", {"property": pid, "family": "", "kind": "race-report", "reports": [[(k, f[:6]) for k, f in i] for i in new[:5]],
+                                        "how": "harness-race stress -mode %s -rounds %d -seed %d under GORACE" % (rcfg["mode"], rounds, seed)})
+        viol.append((rp, "%d data race report(s) outside the known finding" % len(new)))
+    if res.get("problems"):
+        rp = write_replay(pid, "stress", {"property": pid, "family": "", "kind": "stress-invariant", "problems": res["problems"],
+                                          "how": "harness-race stress -mode %s -rounds %d -seed %d" % (rcfg["mode"], rounds, seed)})
+        viol.append((rp, "parallel execution broke an invariant: %s" % res["problems"][0]))
+    return stats, lines, viol
+
+
 def load_known():
     p = os.path.join(ROOT, "known_findings.json")
     if not os.path.exists(p):
@@ -458,6 +527,13 @@ def main():
                               "model_mismatches": len(model_mis), "model_evaluated": model_res is not None,
                               "wall_s": round(time.time() - fam_t0, 1)})
 
+    race_stats = None
+    if ok and cfg.get("race"):
+        race_stats, rlines, rviol = race_stress(pid, cfg["race"], tier, seed, work, known)
+        known_lines += rlines
+        for rp, text in rviol:
+            violations.append((rp, True, text))
+
     # ---- 3. a broken proof / tie with no confirmed failing input: widen the search
     confirmed = [v for v in violations if v[1]]
     if broken and not confirmed and ok:
@@ -515,6 +591,7 @@ def main():
             "rule": " | ".join("%s: %s" % (f["family"], f["rule"]) for f in fam_stats),
             "samples": samples or [{"note": "no harness cases this run"}],
             "known_findings_printed": known_lines,
+            "parallel_race_run": race_stats,
             "broken": broken,
             "explanation": cfg.get("explanation", ""),
         },
